@@ -25,7 +25,10 @@ def sources(tier):
                 ("spot1+fut", ledger.FEES[0], q, deposit, 2, 0.05), ("fut+fut", ledger.FEES[1], q, deposit, 2, 0.05),
                 ("three", ledger.FEES[0], q, deposit, 2), ("three", ledger.FEES[1], q, deposit, 2),
                 ("spot1+fut", ledger.FEES[0], q, deposit, 2, 0.0, True), ("fut+fut", ledger.FEES[1], q, deposit, 2, 0.0, True),
-                ("spot1+fut", ledger.FEES[6], q, deposit, 2), ("three", ledger.FEES[6], q, deposit, 1)]
+                ("spot1+fut", ledger.FEES[6], q, deposit, 2), ("three", ledger.FEES[6], q, deposit, 1),
+                # prices of the order of 1e-3: weight rebalances hold tens of millions of units, and a contract-count target then
+                # scales such a position down to a remainder that is tiny relative to the quantity held
+                ("penny", ledger.FEES[0], ledger.quotes_of(ledger.unit_scale("penny", scale)), deposit, 2, 0.0, True)]
     out = []
     for u in ledger.UNIVERSES:
         for f in (ledger.FEES[0], ledger.FEES[1], ledger.FEES[4], ledger.FEES[5]):
@@ -36,6 +39,8 @@ def sources(tier):
         out.append((u, ledger.FEES[1], q, deposit, 2, 0.05))
         out.append((u, ledger.FEES[0], q, deposit, 2, 0.0, True))
     out.append(("spot1+fut", ledger.FEES[1], q, deposit, 3, 0.0, True))
+    out.append(("penny", ledger.FEES[0], ledger.quotes_of(ledger.unit_scale("penny", scale)), deposit, 3, 0.0, True))
+    out.append(("penny", ledger.FEES[1], ledger.quotes_of(ledger.unit_scale("penny", scale)), deposit, 2, 0.0, True))
     for u in ledger.UNIVERSES:
         out.append((u, ledger.FEES[6], q, deposit, 2))
     return out
@@ -47,7 +52,7 @@ def _collect(src):
     # sources flagged "reb" also reach their states through weight rebalances, so that LARGE holdings exist and a target can
     # be a same-sign REDUCTION of a position (not only an increase, a flip or a liquidation)
     reb = len(src) > 6 and src[6]
-    ops = ledger.alphabet(with_rebalance=reb, nquotes=len(quotes), marks=False, ncontracts=len(ledger.UNIVERSES[universe]))
+    ops = ledger.alphabet(with_rebalance=reb, nquotes=len(quotes), marks=False, ncontracts=len(ledger.contracts_of(universe)))
     states, r = ledger.collect_states(universe, fee, depth, quotes, deposit, ops, rate=rate)
     return src, states, r["transitions"]
 
@@ -95,7 +100,8 @@ def check_rebalance(sb, ref, cs, fee, measure, alloc, second=True, preview_sb=No
                 msgs.append("%s: position x multiplier x %s = %r but weight %r x NLV-before-trading %r = %r"
                             % (c.symbol, "ask" if a > 0 else "bid", float(lhs), a, float(nlv_pre), float(rhs)))
         else:
-            if abs(got_q - a) > 1e-12 * max(1.0, abs(a)):
+            # (floats: the traded difference and the resulting sum are exact only up to an ulp of the LARGEST operand)
+            if abs(got_q - a) > 1e-12 * max(1.0, abs(a), abs(float(ref.qty(c)))):
                 msgs.append("%s: target of %r contracts but position is %r" % (c.symbol, a, got_q))
         if ref.qty(c) != Fr(float(got_q)):
             traded = True
